@@ -11,6 +11,18 @@ Init ==
   \/ (Suite = "matvec" /\ \E nr \in 1..2, nc \in 1..2 : \E M \in [1..nc -> [1..nr -> {0, 1, 2}]], v \in [1..nc -> {0, 1, 3}] :
         c = [suite |-> "matvec", M |-> M, v |-> v, out |-> MatVec(M, v, nr)])
   \/ (Suite = "sample" /\ \E n \in 0..12, k \in 0..13 : c = [suite |-> "sample", n |-> n, k |-> k, out |-> SampleIdx(n, k)])
+  \/ (Suite = "transpose" /\ \E nr \in 1..3, nc \in 1..3 : \E M \in [1..nc -> [1..nr -> {NoneV, 0, 1}]] :
+        c = [suite |-> "transpose", M |-> M, nr |-> nr, out |-> Transpose(M, nr)])
+  \/ (Suite = "pluck" /\ \E n \in 1..2 : \E lens \in [1..n -> 0..3], isnone \in [1..n -> BOOLEAN], k \in (0 - 4)..3 :
+        LET items == [i \in 1..n |-> [j \in 1..lens[i] |-> 10 * i + j]] IN
+        c = [suite |-> "pluck", items |-> items, isnone |-> isnone, k |-> k, out |-> Pluck(items, isnone, k, 0 - 7)])
+  \/ (Suite = "isinstance" /\ \E n \in 0..3 : \E tags \in [1..n -> {"int", "float", "str", "bool", "none"}] :
+        \E T \in (SUBSET {"int", "float", "str", "bool", "none"}) \ {{}} : Cardinality(T) <= 2 /\
+        c = [suite |-> "isinstance", tags |-> tags, T |-> T, out |-> IsInstance(tags, T)])
+  \/ (Suite = "cast" /\ \E n \in 0..3 : \E v \in [1..n -> {NoneV, 0, 1}] :
+        c = [suite |-> "cast", vals |-> v, nullable |-> CastNullable(v), nonepos |-> CastNonePos(v)])
+  \/ (Suite = "tcompare" /\ \E nr \in 0..2, nc \in 1..2 : \E M \in [1..nc -> [1..nr -> {NoneV, 0, 1, 2}]] :
+        \E op \in {"eq", "ne", "lt", "le", "gt", "ge"} : c = [suite |-> "tcompare", M |-> M, x |-> 1, op |-> op, out |-> TableCompare(M, 1, op)])
 Next == UNCHANGED c
 Emit == PrintT(<<"CASE", ToJson(c)>>)
 Laws == /\ (c.suite = "unique" => /\ \A i, j \in 1..Len(c.out) : i # j => c.out[i] # c.out[j]
@@ -19,4 +31,9 @@ Laws == /\ (c.suite = "unique" => /\ \A i, j \in 1..Len(c.out) : i # j => c.out[
                                    /\ \A i \in 1..(Len(c.out) - 1) : c.vals[c.out[i] + 1] <= c.vals[c.out[i + 1] + 1])
         /\ (c.suite = "sample" => /\ \A i \in 1..Len(c.out) : c.out[i] >= 0 /\ c.out[i] < c.n
                                   /\ Len(c.out) <= c.k)
+        /\ (c.suite = "transpose" => Transpose(c.out, Len(c.M)) = c.M)                      \* t.T.T = t
+        /\ (c.suite = "pluck" => \A i \in 1..Len(c.out) : c.out[i] = 0 - 7 \/ c.out[i] \in RangeOf(c.items[i]))
+        /\ (c.suite = "isinstance" => Len(c.out) = Len(c.tags))
+        /\ (c.suite = "tcompare" => \A cc \in 1..Len(c.M) : \A r \in 1..Len(c.M[cc]) :
+                (IsNone(c.M[cc][r]) => ~c.out[cc][r]) /\ (c.op = "eq" /\ ~IsNone(c.M[cc][r]) => (c.out[cc][r] <=> c.M[cc][r] = c.x)))
 =============================================================================
